@@ -258,7 +258,8 @@ class Conn(object):
             return M.NewSessionTicket().create(3600, 7, bytearray(b"\x01"), bytearray(b"forged-ticket" * 3), [])
         if k == "creq":
             return M.CertificateRequest((3, 4)).create(context=self.ctx_bytes(spec[1]),
-                                                       sig_algs=[] if spec[2] else [(8, 4), (8, 9)], extensions=[])
+                                                       sig_algs=[[(8, 4), (8, 9)], [], [(4, 3), (8, 7)]][int(spec[2])],
+                                                       extensions=[])
         if k == "cert":
             chain = self.lab_mod.creds("client_rsa")[0] if spec[2] else X509CertChain([])
             return M.Certificate(CertificateType.x509, (3, 4)).create(chain, self.ctx_bytes(spec[1]))
@@ -351,7 +352,11 @@ class Conn(object):
             res = L.op(who, conn.send_keyupdate_request(op[2]), pump_other=False)
         elif name == "pha":
             before = set(conn._cert_requests.keys())
-            res = L.op(who, conn.request_post_handshake_auth(), pump_other=False)
+            st = None
+            if len(op) > 2 and op[2] == 2:
+                # a request whose signature_algorithms hold nothing an RSA key can use
+                st = self.lab_mod.settings(rsaSigHashes=[], rsaSchemes=[])
+            res = L.op(who, conn.request_post_handshake_auth(st), pump_other=False)
             for k in conn._cert_requests.keys():
                 if k not in before:
                     self.ctxs.append(bytes(k))
@@ -404,7 +409,7 @@ class Conn(object):
         if name == "ku":
             return "op %s ku %d" % (w, op[2])
         if name == "pha":
-            return "op %s pha" % w
+            return "op %s pha%s" % (w, " %d" % op[2] if len(op) > 2 else "")
         if name == "hb":
             return "op %s hb %s %d" % (w, hx(op[2]), op[3])
         if name == "close":
